@@ -55,7 +55,19 @@ func VerifC05RoundTrip() {
 	nframes := verifIntRange("frames", 1, 2)
 	var stream, want []byte
 	for f := 0; f < nframes; f++ {
-		x := verifBytes("payload", verifIntRange("len", 0, verifParam("maxlen", 4)))
+		if f > 0 {
+			// one stream may mix methods: a frame names its own
+			w = NewWriter(LevelZero, vMethods[verifChoice("method", len(vMethods))])
+		}
+		var x []byte
+		if verifChoice("payload-kind", 2) == 0 {
+			// a run of one byte (64, then 40 of them): to the opaque codec model like any other
+			// payload, to the real codecs of a native replay a payload that actually compresses
+			// (matches, not only literals) and that fits into the buffers the previous frame left
+			x = bytes.Repeat([]byte{verifU8("run")}, 64-24*f)
+		} else {
+			x = verifBytes("payload", verifIntRange("len", 0, verifParam("maxlen", 4)))
+		}
 		err := w.Compress(x)
 		verifAssert(err == nil, "compress-ok")
 		stream = append(stream, w.Data...)
